@@ -1360,6 +1360,15 @@ class Program:
             cache[path] = desugar_option_calls(self, desugar_adaptors(self, inline_closure_calls(self, f)))
         return cache[path]
 
+    def fn_results(self, path):
+        """fn_loops(path) with `Result::map / and_then / map_err` over closure literals written out as the matches they denote
+        as well (a value built inside `.open(..).map(|file| Appender { .. })` is then a value built in this function)."""
+        f = self.fn(path)
+        cache = self.__dict__.setdefault("_results", {})
+        if path not in cache:
+            cache[path] = desugar_option_calls(self, desugar_adaptors(self, inline_closure_calls(self, f), results=True))
+        return cache[path]
+
     def fn_threaded(self, path):
         """fn_loops(path) with jump threading applied in any case: a flag set to a constant on each exit of a scan and tested
         afterwards (`let ok = loop { .. break true .. break false }; if ok { .. }`) becomes the direct edges."""
@@ -2122,7 +2131,7 @@ PRED_CONSUMERS = ("for_each", "any", "all", "find", "find_map", "position", "try
 #   base.count()       ==   let mut c = 0; loop { match base.next() { None => break c, Some(_) => c += 1 } }
 
 
-def desugar_adaptors(prog, fn):
+def desugar_adaptors(prog, fn, results=False):
     blocks = [_copy.copy(b) for b in fn.blocks]
     locals_ = list(fn.locals)
     done = []
@@ -2219,6 +2228,41 @@ def desugar_adaptors(prog, fn):
                 blocks[bi] = nb
                 done.append("%s@bb%d" % (t["decl"].rsplit("::", 1)[-1], bi))
             continue
+        if results and not blocks[bi].get("cleanup") and t["k"] == "call" and t.get("decl") in ("core::result::Result::<T, E>::map", "core::result::Result::<T, E>::and_then", "core::result::Result::<T, E>::map_err") \
+                and t.get("target") is not None and not t["dest"]["p"] and len(t.get("args", [])) == 2:
+            #   r.map(f)      ==  match r { Ok(x) => Ok(f(x)), Err(e) => Err(e) }
+            #   r.and_then(f) ==  match r { Ok(x) => f(x),     Err(e) => Err(e) }
+            #   r.map_err(f)  ==  match r { Ok(x) => Ok(x),    Err(e) => Err(f(e)) }
+            ca = callable_of(t["args"][1])
+            o_ = t["args"][0].get("move") or t["args"][0].get("copy")
+            if ca is not None and ca[0] != "fn" and o_ is not None:
+                at = t.get("at")
+                dest = t["dest"]["l"]
+                which = t["decl"].rsplit("::", 1)[-1]
+                dd, x_, r_ = new_local("isize"), new_local(), new_local()
+
+                def res_agg2(variant, op):
+                    return {"k": "agg", "agg": "adt", "adt": "core::result::Result", "adt_local": False, "variant": variant, "field_names": ["0"], "fields": [op]}
+                unreach = new_block([], {"k": "unreachable", "at": at})
+                run_on = "Err" if which == "map_err" else "Ok"
+                keep = "Ok" if which == "map_err" else "Err"
+                if which == "and_then":
+                    after = new_block([assign(dest, {"k": "use", "a": {"move": {"l": r_, "p": []}}}, at)], {"k": "goto", "target": t["target"], "at": at})
+                else:
+                    after = new_block([assign(dest, res_agg2(run_on, {"move": {"l": r_, "p": []}}), at)], {"k": "goto", "target": t["target"], "at": at})
+                call_entry = emit_call(ca, [x_], r_, after, at)
+                runb = new_block([assign(x_, {"k": "use", "a": {"move": {"l": o_["l"], "p": list(o_["p"]) + [{"as": run_on}, {"f": "0", "adt": "core::result::Result"}]}}}, at)],
+                                 {"k": "goto", "target": call_entry, "at": at})
+                keepb = new_block([assign(dest, res_agg2(keep, {"move": {"l": o_["l"], "p": list(o_["p"]) + [{"as": keep}, {"f": "0", "adt": "core::result::Result"}]}}), at)],
+                                  {"k": "goto", "target": t["target"], "at": at})
+                arms = [{"value": 0, "target": runb if run_on == "Ok" else keepb}, {"value": 1, "target": runb if run_on == "Err" else keepb}]
+                sw = new_block([assign(dd, {"k": "discr", "place": o_, "ty": "core::result::Result<?>", "adt": "core::result::Result", "variants": {"0": "Ok", "1": "Err"}}, at)],
+                               {"k": "switch", "discr": {"move": {"l": dd, "p": []}}, "discr_ty": "isize", "arms": arms, "otherwise": unreach, "at": at})
+                nb = dict(blocks[bi])
+                nb["term"] = {"k": "goto", "target": sw, "at": at}
+                blocks[bi] = nb
+                done.append("result_%s@bb%d" % (which, bi))
+                continue
         if not blocks[bi].get("cleanup") and t["k"] == "call" and t.get("decl") in ("core::option::Option::<T>::ok_or_else", "core::option::Option::<T>::ok_or") \
                 and t.get("target") is not None and not t["dest"]["p"] and len(t.get("args", [])) == 2:
             #   o.ok_or_else(f)  ==  match o { Some(x) => Ok(x), None => Err(f()) }        o.ok_or(e)  ==  .. None => Err(e)
